@@ -38,3 +38,29 @@ func Sleep(d time.Duration) {
 	}
 	time.Sleep(d)
 }
+
+// Ticker stands for time.Ticker in rewritten repository files: a real ticker outside scheduled runs, a ticker
+// that fires when the harness decides inside them.
+type Ticker struct {
+	C    <-chan time.Time
+	real *time.Ticker
+	s    *sched.S
+	v    *sched.VTicker
+}
+
+func NewTicker(d time.Duration) *Ticker {
+	if s := sched.Active(); s != nil {
+		v := s.NewTicker(d)
+		return &Ticker{C: v.C, s: s, v: v}
+	}
+	r := time.NewTicker(d)
+	return &Ticker{C: r.C, real: r}
+}
+
+func (t *Ticker) Stop() {
+	if t.real != nil {
+		t.real.Stop()
+		return
+	}
+	t.s.StopTicker(t.v)
+}
